@@ -128,6 +128,77 @@ def _voltage_slice(du, fi):
     return out
 
 
+def _fullwidth_branch(fi):
+    """`if <csel is the full slice>:` at the top level of read: the branch taken when every channel is requested"""
+    for st in fi.node.body:
+        if isinstance(st, ast.If):
+            t = src(st.test).replace(" ", "")
+            if "csel" in t and "slice(None)" in t and st.orelse:
+                return st
+    return None
+
+
+def _fullwidth_rule(ctx, repo, fi, du, fast):
+    """Full-width path: rows converted to float32, columns put in output order with raw_channel_order (or left alone when that order is the identity),
+    then multiplied by a gain vector that must be the conversion vector GATHERED with the same order (s2v[order]); a vector built by scattering
+    (out[order] = s2v) is the inverse permutation."""
+    body = fast.body
+    # the multiplication
+    mult = [st for st in ast.walk(fast) if isinstance(st, ast.AugAssign) and isinstance(st.op, ast.Mult)]
+    mult = [st for st in mult if any(st is x for b_ in body for x in ast.walk(b_))]
+    if not mult:
+        raise AnalysisError("Reader.read: full-width branch without an in-place scaling")
+    g = mult[0].value
+    gsrc = expand_name(du, g, mult[0]) if isinstance(g, ast.Name) else g
+    attr = loc_name(gsrc)
+    if not (attr and attr.startswith("self.")):
+        raise AnalysisError(f"Reader.read: full-width gains `{src(gsrc)[:60]}` are not held in an attribute")
+    stores = []
+    scat = []
+    for st in walk_function(fi.node):
+        if isinstance(st, ast.Assign):
+            for t in st.targets:
+                if loc_name(t) == attr and not isinstance(t, ast.Subscript):
+                    stores.append(st)
+                if isinstance(t, ast.Subscript) and loc_name(t.value) == attr:
+                    scat.append(st)
+    for st in scat:
+        ctx.violation(fi, st, st, f"`{src(st)[:80]}` builds the full-width gain vector by SCATTERING the conversion factors through the channel order: that lays them out by the inverse "
+                      "permutation, so on a full-width read of a sorted recording column i is multiplied by another channel's volts-per-bit (invisible while the order is the identity, "
+                      "an involution, or all gains are equal)", key="fullwidth-gains", name_free=True)
+    n = 0
+    for st in stores:
+        v = st.value
+        if isinstance(v, ast.Constant) and v.value is None:
+            continue
+        from sa.common import expand_deep
+        vv = expand_deep(du, v, st)
+        if isinstance(vv, ast.Call) and call_name(vv) in ("empty_like", "empty", "zeros_like", "zeros"):
+            continue     # the buffer a scatter fills (reported above)
+        n += 1
+        if isinstance(vv, ast.Subscript) and chain_root(vv)[0] in GAINS and not (isinstance(vv.slice, ast.Constant) or loc_name(vv.slice) == "self.type"):
+            sel = expand_name(du, vv.slice, st) if isinstance(vv.slice, ast.Name) else vv.slice
+            ok = "raw_channel_order" in src(sel)
+            ctx.check(ok, fi, st, st, "full-width gains are the conversion vector gathered with raw_channel_order (the order the data columns are put in)",
+                      f"`{src(st)[:70]}` gathers the gains with `{src(sel)[:40]}`, not raw_channel_order", key="fullwidth-gains")
+        elif chain_root(vv)[0] in GAINS:
+            # the plain vector: only where the on-disk order is the output order
+            from sa import guards as GD
+            at_ = GD.Atoms()
+            pc_ = GD.path_condition(du.cfg, du.cfg.node_for(st), at_)
+            ident = any(GD.entails(pc_, GD.Atom(k_)) is True and ("ordered" in k_ or "array_equal" in k_ or "isNone" in k_.replace(" ", "")) for k_ in GD.atoms_of(pc_))
+            ctx.check(ident, fi, st, st, "the unpermuted conversion vector is used only when the on-disk order is the output order",
+                      f"`{src(st)[:70]}` uses the on-disk conversion vector although the columns may be re-ordered (guards: {GD.show(pc_)[:120]})", key="fullwidth-gains-plain")
+        else:
+            raise AnalysisError(f"Reader.read: full-width gains `{src(st)[:70]}` not understood")
+    # the data columns: darray = darray[..., raw_channel_order] (skipped only when that is the identity)
+    perm = [st for b_ in body for st in ast.walk(b_) if isinstance(st, ast.Assign) and isinstance(st.value, ast.Subscript) and "raw_channel_order" in src(st.value.slice)]
+    ctx.check(bool(perm), fi, perm[0] if perm else fast, perm[0] if perm else "darray[..., self.raw_channel_order]", "full-width data columns are put in geometry order with raw_channel_order",
+              "the full-width branch never applies raw_channel_order to the data columns", key="fullwidth-data")
+    if n == 0 and not scat:
+        raise AnalysisError("Reader.read: no definition of the full-width gain vector found")
+
+
 def d1_single_selector(ctx):
     ctx.rule("D1", "Reader.read gathers data columns and gains with one selector = raw_channel_order[csel]; result scaled "
                    "after float32 conversion and returned")
@@ -148,6 +219,13 @@ def d1_single_selector(ctx):
     # the gather that selects columns (if the raw rows are first held in a local, it is the read of that local)
     data_sites = [s for s in data_sites if _col_selectors(s)] or data_sites
     gain_sites = outermost([s for s in subs if chain_root(s)[0] in GAINS], par)
+    # a full-width fast path (`if csel == slice(None): ...`) is decided by its own rule; the general rule looks at the other branch
+    fast = _fullwidth_branch(fi)
+    if fast is not None:
+        inside = {id(n_) for st_ in fast.body for n_ in ast.walk(st_)}
+        data_sites = [x for x in data_sites if id(x) not in inside]
+        gain_sites = [x for x in gain_sites if id(x) not in inside]
+        _fullwidth_rule(ctx, repo, fi, du, fast)
     # only what flows into the returned voltage array counts (the sync decoding may gather its own columns of the same chunk)
     sl = _voltage_slice(du, fi)
     if sl is not None:
